@@ -1669,7 +1669,9 @@ def c20_coverage(st, thorough=False):
         return "no prop.pgpmsg lines"
     need = {"sym:honest", "sym:flip", "sym:reorder", "sym:drop-final", "sym:truncate", "sym:ad", "sym:iv", "sym:key",
             "sym:nomdc", "sym:wrongmdc", "sig:honest", "sig:flip", "sig:expired", "sig:future", "sig:olderthankey",
-            "sig:weakhash", "sig:otherkey", "keyblock:honest", "keyblock:flip"}
+            "sig:weakhash", "sig:otherkey", "keyblock:honest", "keyblock:flip",
+            "sig-unhashed:valid", "sig-unhashed:expired", "sig-unhashed:olderthankey", "sig-unhashed:future",
+            "sig-unhashed:keyblock-self", "sig-unhashed:keyblock-subkey"}
     missing = need - cov["classes"]
     if missing:
         return "classes not exercised: %s" % " ".join(sorted(missing))
@@ -1679,6 +1681,9 @@ def c20_coverage(st, thorough=False):
             return "not every chunk size octet 0..21 exercised for %s" % m
         if {alg for (alg, mm, _) in aead if mm == m} < {"7", "8", "9", "10", "11", "12", "13"}:
             return "not every 128-bit-block cipher exercised for %s" % m
+    subs = {x.split("=")[1].split(":")[0] for (_, x) in cov.get("unhashed", set())}
+    if subs < {"2", "3", "9", "27", "30", "11", "21", "22", "7", "4", "29", "12", "20", "16", "33"}:
+        return "not every subpacket type of the catalogue appended to the unhashed area"
     if {alg for (w, alg, m, cs) in cov["sym"] if w == "seipd"} < {"2", "3", "4", "7", "8", "9", "10", "11", "12", "13"}:
         return "not every cipher exercised with MDC"
     keys = {k for (k, v, t) in cov["sig"]}
@@ -1692,13 +1697,15 @@ def c20_coverage(st, thorough=False):
 PROPS["C20"] = dict(
     module="TmcgProps.C20",
     areas=[("pgpmsg", {"quick": 20, "thorough": 60}, [], "san")],
-    obligations=[("Tmcg.C20." + n, "full") for n in ['cfb_decrypt_encrypt', 'sym_roundtrip', 'mdc_detects', 'no_mdc_refused', 'sed_packet_refused', 'seipd_message_roundtrip', 'aead_decrypt_encrypt', 'aead_message_roundtrip', 'aead_empty_refused', 'aead_tamper_evident', 'aead_reorder_detected', 'aead_truncation_detected', 'aead_ad_bound', 'aead_nonces_distinct', 'validity_logic', 'validity_expired_flag', 'weak_hash_refused', 'unknown_hash_refused', 'left16_check', 'left16_pass', 'verifySig_digest', 'hash_input_injective_binary', 'hash_input_injective_text', 'hash_input_injective_standalone', 'hash_input_injective_key', 'hash_input_injective_key2', 'hash_input_injective_cert', 'sigTrailer_inj', 'textCanon_crlf']],
+    obligations=[("Tmcg.C20." + n, "full") for n in ['cfb_decrypt_encrypt', 'sym_roundtrip', 'mdc_detects', 'no_mdc_refused', 'sed_packet_refused', 'seipd_message_roundtrip', 'aead_decrypt_encrypt', 'aead_message_roundtrip', 'aead_empty_refused', 'aead_tamper_evident', 'aead_reorder_detected', 'aead_truncation_detected', 'aead_ad_bound', 'aead_nonces_distinct', 'validity_logic', 'validity_expired_flag', 'weak_hash_refused', 'unknown_hash_refused', 'left16_check', 'left16_pass', 'verifySig_digest', 'hash_input_injective_binary', 'hash_input_injective_text', 'hash_input_injective_standalone', 'hash_input_injective_key', 'hash_input_injective_key2', 'hash_input_injective_cert', 'sigTrailer_inj', 'textCanon_crlf',
+                                                   'unhashed_only_issuer', 'unhashed_irrelevant', 'unhashed_irrelevant_valid', "unhashed_agree'", 'unhashed_agree_counterexample',
+                                                   'hashed_wins_issuer', 'hashed_wins_fingerprint', 'hashed_wins_embedded']],
     predicate=pred_c20,
     final=lambda st: c20_coverage(st),
     level_text="Theorems in Lean 4 with the primitives as parameters: CFB (modelled on a block function) decrypts what it encrypts for every block function; exact acceptance condition of the MDC check; "
                "data without integrity protection is refused; AEAD chunking round trip for every length and chunk size, and under an ideal AEAD any accepted string is the sender's ciphertext (reorder, truncation, dropped final tag, "
                "other associated data refused); chunk nonces distinct; exact characterisation of signature validity (expiry, key age, 25 h future tolerance, weak hashes), the left-16-bit check, "
-               "injectivity of every hash-input construction (document, text, standalone, key, certification; v3/v4/v5 trailers). Correspondence: real encrypt/decrypt/sign/verify (all ciphers x MDC/EAX/OCB x chunk sizes 0..21 x "
+               "injectivity of every hash-input construction (document, text, standalone, key, certification; v3/v4/v5 trailers); the subpacket areas of a v4/v5 signature: the unhashed area (not covered by the signature) influences nothing but issuer key id, issuer fingerprint and embedded signatures, and those only where the hashed area left them unset, hence the validity verdict is independent of it. Correspondence: real encrypt/decrypt/sign/verify (all ciphers x MDC/EAX/OCB x chunk sizes 0..21 x "
                "lengths around chunk boundaries; RSA, DSA, ECDSA, EdDSA keys; v3/v4/v5 signatures) with byte flips, reorders, truncations, clock and time variations; model recomputes every call from the logged primitive answers.",
     level_note=LEVEL_NOTE + " Block cipher, SHA-1/hash, AEAD seal/open and public-key verification are oracle parameters (logged from libgcrypt through interposed entry points); gpg cross-check is not done (no gpg in the sandbox run).",
     assumptions=["tamper evidence is relative to the primitives: MDC = exact acceptance condition (altered ciphertext accepted only on a SHA-1 coincidence), AEAD = consequences of an ideal AEAD hypothesis, signatures = injective hash input (collision reduction)",
